@@ -155,7 +155,11 @@ theorem validateV2Siacoins_ok {ms : Mid} {t : Txn2} (h : validateV2Siacoins ms t
     · cases h
     · rename_i hne; simpa using hne
   rw [addC_ok] at houtS
-  have e0 := foldlM_addC (fun sci : ScIn2 => sci.parent.value) t.scIns 0 in0 hin0
+  have e0 := foldlM_sum _ (fun sci : ScIn2 => sci.parent.value) (by
+    intro s x r hh
+    split at hh
+    · cases hh; rfl
+    · cases hh) _ _ _ hin0
   have e1 := foldlM_sum _ (fun o : Id × ScOut => o.2.value) (by
     intro s x r hh
     split at hh
